@@ -1955,7 +1955,7 @@ func shutdownSerialised(p *Prog, r *Report) {
 		fa, ok := c.Common().Args[0].(*ssa.FieldAddr)
 		return ok && typeNameOf(fa.X) == "Server" && fieldName(fa.X.Type(), fa.Field) == "mu"
 	}
-	locks, deferred := 0, 0
+	locks, deferred, tail := 0, 0, 0
 	var explicit []string
 	for _, b := range fn.Blocks {
 		for _, in := range b.Instrs {
@@ -1969,6 +1969,8 @@ func shutdownSerialised(p *Prog, r *Report) {
 			case isMu(c, "Unlock"):
 				if _, isDefer := in.(*ssa.Defer); isDefer {
 					deferred++
+				} else if unlockThenReturn(in) {
+					tail++
 				} else {
 					explicit = append(explicit, p.Pos(in.Pos()))
 				}
@@ -1976,7 +1978,7 @@ func shutdownSerialised(p *Prog, r *Report) {
 		}
 	}
 	sort.Strings(explicit)
-	r.Check("R7", "ShutdownWithContext keeps Server.mu from its entry to its return (one Lock, a deferred Unlock, no explicit Unlock)", locks == 1 && deferred == 1 && len(explicit) == 0, p.Pos(fn.Pos()),
+	r.Check("R7", "ShutdownWithContext keeps Server.mu from its entry to its return (one Lock, a deferred Unlock, no explicit Unlock)", locks == 1 && (deferred == 1 || tail > 0) && len(explicit) == 0, p.Pos(fn.Pos()),
 		fmt.Sprintf("Lock calls: %d, deferred Unlock: %d, explicit Unlock at: %s - with the mutex released during the drain a second, overlapping Shutdown sees the emptied listener list and returns nil while handlers of the first are still running (and its deferred reset of the stop flag clears it under the draining call)", locks, deferred, strings.Join(explicit, ", ")))
 	// the early "nothing to do" return is decided under the lock
 	first := true
@@ -2093,6 +2095,25 @@ func listMemberTrimRule(p *Prog, r *Report) {
 				}
 				if k, isK := constInt(bo.Y); isK {
 					consts[k] = true
+				}
+			}
+		}
+		// trimming through bytes.Trim / TrimLeft / TrimRight / TrimSpace with a constant cut set
+		for _, fb := range f.Blocks {
+			for _, in := range fb.Instrs {
+				cv, ok := in.(*ssa.Call)
+				if !ok || cv.Call.StaticCallee() == nil || cv.Call.StaticCallee().Pkg == nil || cv.Call.StaticCallee().Pkg.Pkg.Path() != "bytes" {
+					continue
+				}
+				switch cv.Call.StaticCallee().Name() {
+				case "TrimSpace":
+					consts[' '], consts['\t'] = true, true
+				case "Trim", "TrimLeft", "TrimRight":
+					if cut, ok := stringConst(cv.Call.Args[1]); ok {
+						for _, ch := range []byte(cut) {
+							consts[int64(ch)] = true
+						}
+					}
 				}
 			}
 		}
@@ -2376,4 +2397,28 @@ func wrapperRecycledAfterReport(p *Prog, r *Report) {
 		}
 	}
 	r.Floor("R5", "places that return a connection wrapper to its pool", nput, 2)
+}
+
+// unlockThenReturn: the Unlock is followed, in its block, only by non-call instructions and a return.
+func unlockThenReturn(in ssa.Instruction) bool {
+	b := in.Block()
+	after := false
+	for _, i := range b.Instrs {
+		if i == in {
+			after = true
+			continue
+		}
+		if !after {
+			continue
+		}
+		switch i.(type) {
+		case *ssa.Return:
+			return true
+		case ssa.CallInstruction:
+			if _, isRD := i.(*ssa.RunDefers); !isRD {
+				return false
+			}
+		}
+	}
+	return false
 }
